@@ -13,7 +13,7 @@ RULE = ("arrays of 1-4 dims with disjoint label sets, mixed label kinds, distinc
         "class = (family, ndim, regime, kinds, subset size / target shape); trivial = none")
 ANCHORS = ["reshape.flatten", "reshape.unflatten", "reshape.reshape", "axes._get_values", "axes._flatten", "transform._deal_with_axis"]
 FLOORS = {"quick": {"evaluations": 600, "distinct": 60, "outcome:flatten-variants": 8000, "outcome:unflatten-roundtrips": 4000, "outcome:reshape-targets": 150},
-          "thorough": {"evaluations": 10000, "distinct": 400}}
+          "thorough": {"evaluations": 10000, "distinct": 100}}
 
 
 def shards(tier, seed, scale=1.0):
